@@ -157,9 +157,13 @@ class LineGen:
     """protocol lines for histories whose outcome does not depend on hash-map order inside the library
     (no two sources landing on one target)"""
 
-    def __init__(self, rng, dual, layout, big=False):
+    def __init__(self, rng, dual, layout, big=False, path_ids=None):
         self.rng, self.dual, self.layout = rng, dual, layout
         self.ids = ["obj-%d" % k for k in range(rng.randint(1, 3))]
+        if layout[0].startswith("0002") and (path_ids if path_ids is not None else rng.random() < 0.6):
+            # ids that are paths: prefixes of one another, through another object's inner directories, escaping
+            self.ids = list(rng.choice([["a", "a/v1/x", "a/b", "z"], ["coll/2024/rep1", "coll/2024/rep2", "coll"], ["../esc", "ok", "ok/../../y"],
+                                        ["p", "p/v1/content", "p/extensions/e"]]))
         self.files = rng.sample(NAMES[:-1], rng.randint(3, 6)) + (["big.bin"] if big else [])
         self.k = 0
 
